@@ -94,8 +94,9 @@ def run(ctx):
     ctx.cov["trusted_base"] = p01.TB + ["model Export.v (renumbering, names, edge names) validated here; numpy/scipy/networkx containers compared as sets of triples"]
     ctx.cov["rule"] = ("case = (graph, configuration, early-stop setting); non-trivial when there are >= 4 vertices and an edge between different vertices; distinct by canonical JSON")
     ctx.assumptions += ["NoColl on the orbit"]
-    ctx.prove(extra=["BfsRun", "Export"])
+    ctx.prove(extra=["BfsRun", "Export", "ExportMatrices"])
     bfs_cases, bfs_metas, ex_cases, ex_metas = [], [], [], []
+    mx_cases, mx_metas = [], []
     for _ in range(ctx.budget(70, 600)):
         gd = G.gen_graph(rng, cap=ctx.budget(200, 1200))
         layers, dist = G.ref_bfs(gd, [gd["central"]])
@@ -141,6 +142,16 @@ def run(ctx):
                     clist(obs["edges"], lambda p: f"({cz(p[0])}, {cz(p[1])})") + "%Z", czll(states),
                     clist(el, lambda p: f"({p[0]}, {p[1]})") + "%nat", clist(res.vertex_names, cstr), clist(en, cstr)]) + ")")
                 ex_metas.append(case)
+                # the matrices and the undirected name pairs, as the implementation returned them, against the model ExportMatrices.v
+                nv = len(states)
+                if nv <= 80:
+                    dense = [[int(v) for v in row] for row in res.adjacency_matrix().tolist()]
+                    sp = res.adjacency_matrix_sparse()
+                    coo = [(int(a), int(b), int(v)) for a, b, v in zip(sp.row.tolist(), sp.col.tolist(), sp.data.tolist())]
+                    und = sorted(tuple(p_) for p_ in res.named_undirected_edges())
+                    mx_cases.append(f"({nv}%nat, " + clist(el, lambda p: f"({p[0]}, {p[1]})") + "%nat, " + clist(res.vertex_names, cstr) + ", " + czll(dense) + ", "
+                                    + clist(coo, lambda t: f"({t[0]}%nat, {t[1]}%nat, {cz(t[2])})") + ", " + clist(und, lambda p_: f"({cstr(p_[0])}, {cstr(p_[1])})") + ")")
+                    mx_metas.append(case)
     ctx.sample(bfs_metas[0])
     bad = ctx.coq_failing("Base Bfs BfsRun GraphImpl Hash Tensor", "", "bfs_case", bfs_cases, "check_case", "bfsedges", shard=ctx.budget(10, 20))
     for i in bad[:3]:
@@ -148,7 +159,13 @@ def run(ctx):
     bad = ctx.coq_failing("Base Export", "", "export_case", ex_cases, "check_export", "export", shard=ctx.budget(10, 20))
     for i in bad[:3]:
         ctx.violation("correspondence", "export model (renumbering / vertex names / edge names) differs from the implementation", ex_metas[i], False)
-    ctx.cov["disagreements_checked"] = len(bfs_cases) + len(ex_cases)
+    bad = ctx.coq_failing("Base Export ExportMatrices", "", "nat * list (nat * nat) * list string * list (list Z) * list (nat * nat * Z) * list (string * string)", mx_cases,
+                          "fun c => match c with (n, el, names, dense, coo, und) => check_dense n el dense && check_sparse el coo && check_named_undirected names el und end",
+                          "matrices", shard=ctx.budget(10, 20))
+    for i in bad[:3]:
+        ctx.violation("correspondence", "adjacency-matrix / undirected-name-pair model differs from the implementation", mx_metas[i], False)
+    ctx.count("matrix_exports_compared_with_model", len(mx_cases))
+    ctx.cov["disagreements_checked"] = len(bfs_cases) + len(ex_cases) + len(mx_cases)
 
 
 def replay(ctx, obj):
